@@ -13,12 +13,13 @@ def _fmag(x):
 
 class SymFloat:
     """t: z3 FP term; mag: conservative bound on |value| (used to size float->int conversions)."""
-    __slots__ = ("_t", "mag", "iv")
+    __slots__ = ("_t", "mag", "iv", "ratio")
 
     def __init__(self, t, mag=float(1 << (W - 4)), iv=None):
         self._t = t
         self.mag = mag
         self.iv = iv   # exact value as int | SymInt when the double is known to be integer-valued
+        self.ratio = None
 
     @property
     def t(self):
